@@ -310,6 +310,27 @@ def check(ctx):
              and t[2] == (("a", SELF, "_chunks_list"), c(1)) for t, _, _ in rcat.calls)
     ctx.ob("C08.R5", cat, "chunks are concatenated along the time axis (axis 1) in append "
                           "order", ok)
+    # the leaf helpers the chains are built on
+    PT = "liesel.goose.pytree"
+    sl = evaluate(repo, repo.func(f"{PT}.slice_leaves")).ret()
+    ok = (sl is not None and is_call(sl, "jax.tree_util.tree_map") and sl[2][0][0] == "lambda"
+          and sl[2][0][2] == ("s", n(sl[2][0][1][0]), n("idx")) and sl[2][1] == n("pytree"))
+    ctx.ob("C08.R5", repo.func(f"{PT}.slice_leaves"), "slice_leaves applies the same index "
+                                                      "to every leaf", ok, detail=short(sl or ()))
+    for fname, op in (("concatenate_leaves", "concatenate"), ("stack_leaves", "stack")):
+        fi_ = repo.func(f"{PT}.{fname}")
+        rt_ = evaluate(repo, fi_).ret()
+        ok = False
+        if rt_ is not None and is_call(rt_, "jax.tree_util.tree_map") and rt_[2][0][0] == "lambda":
+            lam = rt_[2][0]
+            body = lam[2]
+            ok = (is_call(body, f"jax.numpy.{op}") and kw(body, "axis") == n("axis")
+                  and lam[1] == ("*xs",) and body[2] == (n("xs"),)
+                  and rt_[2][1] == ("star", n("pytrees")))
+        ctx.ob("C08.R5", fi_, f"{fname} applies jnp.{op} along the given axis to the "
+                              f"corresponding leaves of all pytrees, in list order", ok,
+               detail=short(rt_ or ()))
+
     # included / excluded keys
     eb = repo.cls("liesel.goose.builder.EngineBuilder")
     build = method(repo, eb, "build")
